@@ -10,6 +10,7 @@ lemmas quantify the resulting `ln` existentially.
 import PybtexModel.Spec.Bib
 import PybtexModel.Lemmas.Basic
 import PybtexModel.Lemmas.CIMap
+import PybtexModel.Lemmas.BibProcess
 
 namespace Pybtex.BibRT
 open Pybtex Pybtex.Bib Pybtex.BibSpec
@@ -442,8 +443,8 @@ theorem pvp_quote {s s' : St} {v : Str}
   rw [h]
   rfl
 
-/-- the reader's macro dictionary implements the reference table `m` -/
-def MacRef (d : CIDict Str) (m : Macros) : Prop := CIDict.Inv d ∧ CIDict.abs d = m
+/-- the reader's macro dictionary implements the reference table `m`: every lookup agrees -/
+def MacRef (d : CIDict Str) (m : Macros) : Prop := ∀ k, d.getItem k = OMap.get m k
 
 theorem omap_get_congr {V : Type} (m : OMap V) {a b : Str} (h : lower a = lower b) :
     OMap.get m a = OMap.get m b := by
@@ -490,7 +491,7 @@ theorem parseValuePart_piece (m : Macros) (p : Piece) (l : PieceLayout) (s : St)
       refine ⟨s.ln + countNl w, ?_⟩
       simp only [parseValuePart, hreq, substituteMacro]
       have hget : s.macros.getItem (c :: t) = OMap.get m n := by
-        rw [CIDict.getItem_abs hm.1, hm.2, omap_get_congr m hlow]
+        rw [hm, omap_get_congr m hlow]
       simp only [OMap.has, Option.isSome_iff_exists] at hhas
       obtain ⟨v, hv⟩ := hhas
       simp only [hget, hv, expandPiece, Option.getD_some]
@@ -1008,6 +1009,657 @@ theorem parseCommand_string_of (s s1 s2 s3 s4 : St) (command v : Str) (paren : B
   unfold parseCommand
   simp only [fresh_eq, h1, h2, hp, show ("string".toList ≠ "comment".toList) by decide,
     if_false, if_true, decide_open, bodyEnd_eq, hb, he]
+
+
+theorem closer_not_ws (paren : Bool) : isWs (closer paren) = false := (EndChar.closer paren).notWs
+
+/-- Stage 3: a rendered entry is read back as `Cmd.entry` with the type and field names as
+written, the key, and the expanded pieces of every field; exactly the text up to and including
+the closing delimiter is consumed; nothing is reported. -/
+theorem parseCommand_entry (m : Macros) (keys : List Str) (ty key : Str) (fs : List (Str × Value)) (l : CmdLayout)
+    (s : St) (r : Str)
+    (h : '@' :: s.rest = renderCmd (.entry ty key fs) l ++ r)
+    (hok : cmdOk m keys (.entry ty key fs) l = true) (hm : MacRef s.macros m) (hwant : s.db.wanted = none) :
+    ∃ ln' fn cv, parseCommand s =
+      .ok (Cmd.entry (applyMask ty l.mask) (some key) (parsedFields m fs l.fields))
+        { s with rest := l.afterClose ++ r, ln := ln', curKey := some key,
+                 curFields := parsedFields m fs l.fields, curFieldName := fn, curValue := cv } := by
+  simp only [cmdOk, Bool.and_eq_true] at hok
+  obtain ⟨⟨⟨⟨⟨⟨⟨⟨⟨⟨hty, hres⟩, hkey⟩, _⟩, hfs⟩, hw1⟩, hw2⟩, hw3⟩, hw4⟩, hw5⟩, hw6⟩ := hok
+  simp only [renderCmd, List.cons_append, List.append_assoc, List.cons.injEq, true_and] at h
+  generalize htrail : (if (l.trailing || fs.isEmpty) = true then ',' :: l.afterTrailing else []) = trail at h
+  have htr : Trail trail := by
+    rw [← htrail]; split
+    · exact Or.inr ⟨_, rfl, allWs_of_wsOk hw5⟩
+    · exact Or.inl rfl
+  have hne : fs = [] → trail ≠ [] := by
+    rintro rfl; rw [← htrail]; simp
+  have hlow : lower (applyMask ty l.mask) = lower ty := lower_applyMask _ _
+  simp only [reserved, List.contains_cons, List.contains_nil, Bool.or_false, Bool.not_eq_true',
+    Bool.or_eq_false_iff, beq_eq_false_iff_ne, ne_eq] at hres
+  obtain ⟨ln2, h1, h2⟩ := command_head s l.afterAt (applyMask ty l.mask) l.beforeOpen l.paren _ h
+    (allWs_of_wsOk hw1) (by rw [isName_applyMask]; exact hty) (allWs_of_wsOk hw2)
+  obtain ⟨ln3, fn, cv, h3⟩ := parseEntryBody_entry m l.paren key fs l.fields
+    { St.fresh s with rest := l.afterOpen ++ (key ++ (l.afterKey ++ (renderFields fs l.fields ++ (trail ++ closer l.paren :: (l.afterClose ++ r))))), ln := ln2 }
+    l.afterOpen l.afterKey trail (l.afterClose ++ r) rfl (allWs_of_wsOk hw3) hkey (allWs_of_wsOk hw4) hfs hm htr hne hwant
+  have h4 := required_lit
+    { St.fresh s with rest := closer l.paren :: (l.afterClose ++ r), ln := ln3, curKey := some key,
+                      curFields := [] ++ parsedFields m fs l.fields, curFieldName := fn, curValue := cv }
+    (closer l.paren) (descOf [.lit (closer l.paren)]) (w := []) rfl AllWs.nil (closer_not_ws _)
+  refine ⟨ln3 + countNl [], fn, cv, ?_⟩
+  rw [parseCommand_entry_of s _ _ _ _ _ _ l.paren _ h1 h2 (by rw [hlow]; exact hres.2.2)
+    (by rw [hlow]; exact hres.1) (by rw [hlow]; exact hres.2.1) h3 h4]
+  simp [St.fresh]
+
+
+theorem omap_get_set {V : Type} (m : OMap V) (n k : Str) (v : V) :
+    OMap.get (OMap.set m n v) k = if lower n = lower k then some v else OMap.get m k := by
+  induction m with
+  | nil =>
+    simp only [OMap.set, OMap.get]
+  | cons e m ih =>
+    obtain ⟨l, sp, w⟩ := e
+    simp only [OMap.set]
+    by_cases h1 : l = lower n
+    · subst h1
+      simp only [if_true, OMap.get]
+      split <;> rfl
+    · simp only [h1, if_false, OMap.get, ih]
+      by_cases h2 : l = lower k
+      · subst h2
+        simp [Ne.symm h1]
+      · simp [h2]
+
+theorem macRef_set {d : CIDict Str} {m : Macros} (h : MacRef d m) {n n' : Str} (hl : lower n' = lower n) (v : Str) :
+    MacRef (d.setItem n' v) (OMap.set m n v) := by
+  intro k
+  rw [omap_get_set, ← h k, ← hl]
+  simp only [CIDict.getItem, CIDict.setItem]
+  by_cases hk : lower n' = lower k
+  · rw [if_pos hk, ← hk, dget_dset_same]
+  · rw [if_neg hk, dget_dset_ne _ _ _ _ (Ne.symm hk)]
+
+/-- `@string`: the body `ws name ws = ws value ws` in front of the closing delimiter -/
+theorem parseStringBody_strdef (m : Macros) (n : Str) (v : Value) (mask : CaseMask) (ls : List PieceLayout) (s : St)
+    (w1 w2 w3 w4 : Str) (c : Char) (r : Str)
+    (h : s.rest = w1 ++ (applyMask n mask ++ (w2 ++ '=' :: (w3 ++ (renderValue v ls ++ (w4 ++ c :: r))))))
+    (hw1 : AllWs w1) (hn : isName n = true) (hw2 : AllWs w2) (hw3 : AllWs w3) (hv : valueOk m v ls = true)
+    (hw4 : AllWs w4) (hm : MacRef s.macros m) (hc : EndChar c) :
+    ∃ ln', parseStringBody s = .ok ()
+      { s with rest := c :: r, ln := ln', curFieldName := some (applyMask n mask), curValue := expandPieces m v,
+               macros := s.macros.setItem (applyMask n mask) (expand m v) } := by
+  have h1 := required_name s (descOf [.name]) h hw1 (by rw [isName_applyMask]; exact hn)
+    (stops_ws_append hw2 (fun _ => ws_not_nameChar) (stops_cons.2 sep_not_nameChar.2.1))
+  generalize hT : w3 ++ (renderValue v ls ++ (w4 ++ c :: r)) = T at h h1
+  have h2 := required_lit
+    { s with rest := w2 ++ '=' :: T, ln := s.ln + countNl w1, curFieldName := some (applyMask n mask) }
+    '=' (descOf [.lit '=']) rfl hw2 sep_not_ws.2.1
+  obtain ⟨ln3, h3⟩ := parseValue_value m v ls
+    { s with rest := T, ln := s.ln + countNl w1 + countNl w2, curFieldName := some (applyMask n mask) }
+    w3 w4 c r hT.symm hw3 hv hm hw4 hc.notWs hc.notHash (stops_end hw4 hc)
+  refine ⟨ln3, ?_⟩
+  simp only [parseStringBody, h1, h2, h3, expand]
+
+/-- Stage 3: a rendered `@string` defines the macro under the written name. -/
+theorem parseCommand_strdef (m : Macros) (keys : List Str) (n : Str) (v : Value) (l : CmdLayout) (s : St) (r : Str)
+    (h : '@' :: s.rest = renderCmd (.strdef n v) l ++ r)
+    (hok : cmdOk m keys (.strdef n v) l = true) (hm : MacRef s.macros m) :
+    ∃ ln', parseCommand s = .ok Cmd.string
+        { s with rest := l.afterClose ++ r, ln := ln', curKey := none, curFields := [],
+                 curFieldName := some (applyMask n l.nameMask), curValue := expandPieces m v,
+                 macros := s.macros.setItem (applyMask n l.nameMask) (expand m v) } := by
+  simp only [cmdOk, Bool.and_eq_true] at hok
+  obtain ⟨⟨⟨⟨⟨⟨⟨⟨hn, hv⟩, hw1⟩, hw2⟩, hw3⟩, hw4⟩, hw5⟩, hw6⟩, hw7⟩ := hok
+  simp only [renderCmd, List.cons_append, List.append_assoc, List.cons.injEq, true_and] at h
+  obtain ⟨ln2, h1, h2⟩ := command_head s l.afterAt (kw "string" l.mask) l.beforeOpen l.paren _ h
+    (allWs_of_wsOk hw1) (by rw [kw, isName_applyMask]; decide) (allWs_of_wsOk hw2)
+  obtain ⟨ln3, h3⟩ := parseStringBody_strdef m n v l.nameMask l.pieces
+    { St.fresh s with rest := l.afterOpen ++ (applyMask n l.nameMask ++ (l.beforeEq ++ '=' :: (l.afterEq ++ (renderValue v l.pieces ++ (l.afterValue ++ closer l.paren :: (l.afterClose ++ r)))))), ln := ln2 }
+    l.afterOpen l.beforeEq l.afterEq l.afterValue (closer l.paren) (l.afterClose ++ r) rfl
+    (allWs_of_wsOk hw3) hn (allWs_of_wsOk hw4) (allWs_of_wsOk hw5) hv (allWs_of_wsOk hw6) hm (EndChar.closer _)
+  have h4 := required_lit
+    { St.fresh s with rest := closer l.paren :: (l.afterClose ++ r), ln := ln3,
+                      curFieldName := some (applyMask n l.nameMask), curValue := expandPieces m v,
+                      macros := s.macros.setItem (applyMask n l.nameMask) (expand m v) }
+    (closer l.paren) (descOf [.lit (closer l.paren)]) (w := []) rfl AllWs.nil (closer_not_ws _)
+  refine ⟨ln3 + countNl [], ?_⟩
+  rw [parseCommand_string_of s _ _ _ _ _ _ l.paren _ h1 h2 (by rw [kw, lower_applyMask]; decide) h3 h4]
+  simp [St.fresh]
+
+/-- Stage 3: a rendered `@preamble` yields the expanded pieces of its value. -/
+theorem parseCommand_preamble (m : Macros) (keys : List Str) (v : Value) (l : CmdLayout) (s : St) (r : Str)
+    (h : '@' :: s.rest = renderCmd (.preamble v) l ++ r)
+    (hok : cmdOk m keys (.preamble v) l = true) (hm : MacRef s.macros m) :
+    ∃ ln', parseCommand s = .ok (Cmd.preamble (expandPieces m v))
+        { s with rest := l.afterClose ++ r, ln := ln', curKey := none, curFields := [],
+                 curFieldName := none, curValue := expandPieces m v } := by
+  simp only [cmdOk, Bool.and_eq_true] at hok
+  obtain ⟨⟨⟨⟨⟨hv, hw1⟩, hw2⟩, hw3⟩, hw4⟩, hw5⟩ := hok
+  simp only [renderCmd, List.cons_append, List.append_assoc, List.cons.injEq, true_and] at h
+  obtain ⟨ln2, h1, h2⟩ := command_head s l.afterAt (kw "preamble" l.mask) l.beforeOpen l.paren _ h
+    (allWs_of_wsOk hw1) (by rw [kw, isName_applyMask]; decide) (allWs_of_wsOk hw2)
+  obtain ⟨ln3, h3⟩ := parseValue_value m v l.pieces
+    { St.fresh s with rest := l.afterOpen ++ (renderValue v l.pieces ++ (l.afterValue ++ closer l.paren :: (l.afterClose ++ r))), ln := ln2 }
+    l.afterOpen l.afterValue (closer l.paren) (l.afterClose ++ r) rfl
+    (allWs_of_wsOk hw3) hv hm (allWs_of_wsOk hw4) (EndChar.closer _).notWs (EndChar.closer _).notHash
+    (stops_end (allWs_of_wsOk hw4) (EndChar.closer _))
+  have h4 := required_lit
+    { St.fresh s with rest := closer l.paren :: (l.afterClose ++ r), ln := ln3, curValue := expandPieces m v }
+    (closer l.paren) (descOf [.lit (closer l.paren)]) (w := []) rfl AllWs.nil (closer_not_ws _)
+  refine ⟨ln3 + countNl [], ?_⟩
+  rw [parseCommand_preamble_of s _ _ _ _ _ _ l.paren _ h1 h2 (by rw [kw, lower_applyMask]; decide) h3 h4]
+  simp [St.fresh]
+
+/-- Stage 3: a rendered `@comment` is skipped right behind its opening delimiter (the text and
+the closing delimiter are then passed over as junk by the command loop). -/
+theorem parseCommand_comment_cmd (m : Macros) (keys : List Str) (txt : Str) (l : CmdLayout) (s : St) (r : Str)
+    (h : '@' :: s.rest = renderCmd (.comment txt) l ++ r)
+    (hok : cmdOk m keys (.comment txt) l = true) :
+    ∃ ln', parseCommand s = .fail .skip
+        { s with rest := txt ++ closer l.paren :: (l.afterClose ++ r), ln := ln', curKey := none, curFields := [],
+                 curFieldName := none, curValue := [] } := by
+  simp only [cmdOk, Bool.and_eq_true] at hok
+  obtain ⟨⟨⟨_, hw1⟩, hw2⟩, _⟩ := hok
+  simp only [renderCmd, List.cons_append, List.append_assoc, List.cons.injEq, true_and] at h
+  obtain ⟨ln2, h1, h2⟩ := command_head s l.afterAt (kw "comment" l.mask) l.beforeOpen l.paren _ h
+    (allWs_of_wsOk hw1) (by rw [kw, isName_applyMask]; decide) (allWs_of_wsOk hw2)
+  refine ⟨ln2, ?_⟩
+  rw [parseCommand_comment s _ _ _ _ _ h1 h2 (by rw [kw, lower_applyMask]; decide)]
+  simp [St.fresh]
+
+
+/-! ## Stage 4: whole documents -/
+
+theorem isPersonField_applyMask (n : Str) (mk : CaseMask) : isPersonField (applyMask n mk) = isPersonField n := by
+  simp only [isPersonField, isPersonFieldOf, lower_applyMask]
+
+theorem procOk_of_fieldsOk (m : Macros) (fs : List (Str × Value)) :
+    ∀ (ls : List FieldLayout) (seen : List Str), fieldsOk m seen fs ls = true →
+      procOk m seen (writtenFields fs ls) = true := by
+  induction fs with
+  | nil => intro ls seen _; rfl
+  | cons f fs ih =>
+    intro ls seen h
+    rw [fieldsOk] at h
+    simp only [Bool.and_eq_true] at h
+    obtain ⟨⟨⟨⟨⟨⟨⟨⟨_, hseen⟩, _⟩, _⟩, _⟩, _⟩, _⟩, hpers⟩, hrest⟩ := h
+    simp only [writtenFields, procOk, lower_applyMask, isPersonField_applyMask, Bool.and_eq_true]
+    exact ⟨⟨hseen, hpers⟩, ih ls.tail _ hrest⟩
+
+/-- the invariant of the command loop: the reader state implements the spec state
+(`m` macro table, `D` database so far, `keys` lower-cased keys so far) and nothing was reported -/
+structure LoopInv (s : St) (m : Macros) (D : Denot) (keys : List Str) : Prop where
+  mac : MacRef s.macros m
+  proc : ProcInv s
+  entries : s.db.entries = D.entries
+  preamble : s.db.preamble = D.preamble
+  errs : s.errs = []
+  keys : ∀ e ∈ D.entries, lower e.key ∈ keys
+
+theorem AtFree.skip {pre : Str} (h : ∀ c ∈ pre, c ≠ '@') : ∀ x ∈ pre, (decide (x = '@')) = false := by
+  intro x hx; simpa using h x hx
+
+theorem allWs_atFree {w : Str} (h : AllWs w) : ∀ c ∈ w, c ≠ '@' := fun c hc => (ws_ne (h c hc)).2.2.2.2.2.2.2.2
+
+theorem parseLoop_unfold (fuel : Nat) (s : St) :
+    parseLoop (fuel + 1) s =
+    match skipToChar (· = '@') s.rest with
+    | none => (s, none)
+    | some (chunk, rest) =>
+      let s := { s with rest := rest, ln := s.ln + countNl chunk }
+      match parseCommand s with
+      | .ok c s =>
+        match processCmd c s with
+        | .ok _ s => parseLoop fuel s
+        | .fail (.raised e) s => (s, some e)
+        | .fail (.syn e) s => (s, some e)
+        | .fail .skip s => parseLoop fuel s
+      | .fail (.syn e) s =>
+        match handleError s e with
+        | .ok _ s => parseLoop fuel s
+        | .fail (.raised e) s => (s, some e)
+        | .fail _ s => (s, some e)
+      | .fail .skip s => parseLoop fuel s
+      | .fail (.raised e) s => (s, some e) := rfl
+
+/-- the loop step up to the command: junk is skipped up to and including the `@` -/
+theorem parseLoop_at (fuel : Nat) (s : St) (pre T : Str) (h : s.rest = pre ++ '@' :: T) (hpre : ∀ c ∈ pre, c ≠ '@') :
+    parseLoop (fuel + 1) s =
+      match parseCommand { s with rest := T, ln := s.ln + countNl (pre ++ ['@']) } with
+      | .ok c s =>
+        match processCmd c s with
+        | .ok _ s => parseLoop fuel s
+        | .fail (.raised e) s => (s, some e)
+        | .fail (.syn e) s => (s, some e)
+        | .fail .skip s => parseLoop fuel s
+      | .fail (.syn e) s =>
+        match handleError s e with
+        | .ok _ s => parseLoop fuel s
+        | .fail (.raised e) s => (s, some e)
+        | .fail _ s => (s, some e)
+      | .fail .skip s => parseLoop fuel s
+      | .fail (.raised e) s => (s, some e) := by
+  rw [parseLoop_unfold, h, skipToChar_append (AtFree.skip hpre) (by simp)]
+
+
+theorem renderCmd_length_pos {c : ACmd} (l : CmdLayout) (h : ∀ txt, c ≠ .junk txt) : 0 < (renderCmd c l).length := by
+  cases c with
+  | junk txt => exact absurd rfl (h txt)
+  | _ => simp [renderCmd]
+
+theorem closer_ne_at (paren : Bool) : closer paren ≠ '@' := by cases paren <;> decide
+
+/-- Stage 4: the command loop on a rendered well-formed document computes the denotation. -/
+theorem parseLoop_doc :
+    ∀ (cs : ADoc) (ls : Layout) (fuel : Nat) (s : St) (pre : Str) (m : Macros) (D : Denot) (keys : List Str),
+      s.rest = pre ++ render cs ls → (∀ c ∈ pre, c ≠ '@') → wfFrom m keys cs ls = true → LoopInv s m D keys →
+      (render cs ls).length < fuel →
+      ∃ s' m' keys', parseLoop fuel s = (s', none) ∧ LoopInv s' m' (denoteFrom m D (written cs ls)) keys' := by
+  intro cs
+  induction cs with
+  | nil =>
+    intro ls fuel s pre m D keys h hpre _ hinv hfuel
+    obtain ⟨fuel, rfl⟩ : ∃ k, fuel = k + 1 := ⟨fuel - 1, by omega⟩
+    simp only [render, List.append_nil] at h
+    refine ⟨s, m, keys, ?_, hinv⟩
+    rw [parseLoop_unfold, h, skipToChar_none (AtFree.skip hpre)]
+  | cons c cs ih =>
+    intro ls fuel s pre m D keys h hpre hwf hinv hfuel
+    rw [wfFrom] at hwf
+    simp only [Bool.and_eq_true] at hwf
+    obtain ⟨hok, hwf'⟩ := hwf
+    simp only [render] at h hfuel
+    simp only [written, denoteFrom]
+    cases c with
+    | junk txt =>
+      simp only [renderCmd] at h hfuel
+      simp only [cmdOk, atFree, List.all_eq_true, decide_eq_true_eq] at hok
+      refine ih ls.tail fuel s (pre ++ txt) m D keys (by rw [h, List.append_assoc]) ?_ hwf' hinv
+        (by simp only [List.length_append] at hfuel; omega)
+      intro x hx
+      rcases List.mem_append.1 hx with hx | hx
+      · exact hpre x hx
+      · exact hok x hx
+    | comment txt =>
+      obtain ⟨fuel, rfl⟩ : ∃ k, fuel = k + 1 := ⟨fuel - 1, by omega⟩
+      have hlen := renderCmd_length_pos (c := .comment txt) (ls.headD {}) (by intro t; simp)
+      obtain ⟨T, hT⟩ : ∃ T, renderCmd (.comment txt) (ls.headD {}) = '@' :: T := ⟨_, rfl⟩
+      rw [hT, List.cons_append] at h
+      rw [parseLoop_at fuel s pre _ h hpre]
+      obtain ⟨ln1, h1⟩ := parseCommand_comment_cmd m keys txt (ls.headD {})
+        { s with rest := T ++ render cs ls.tail, ln := s.ln + countNl (pre ++ ['@']) } (render cs ls.tail)
+        (by rw [hT]; rfl) hok
+      rw [h1]
+      have hok' := hok
+      simp only [cmdOk, Bool.and_eq_true, atFree, List.all_eq_true, decide_eq_true_eq] at hok'
+      obtain ⟨⟨⟨htxt, _⟩, _⟩, hwc⟩ := hok'
+      refine ih ls.tail fuel _ (txt ++ closer (ls.headD {}).paren :: (ls.headD {}).afterClose) m D keys
+        (by simp) ?_ hwf' ⟨hinv.mac, ⟨hinv.proc.wanted, hinv.proc.cit, hinv.proc.roles⟩, hinv.entries, hinv.preamble, hinv.errs, hinv.keys⟩
+        (by simp only [List.length_append] at hfuel; omega)
+      intro x hx
+      rcases List.mem_append.1 hx with hx | hx
+      · exact htxt x hx
+      · rcases List.mem_cons.1 hx with rfl | hx
+        · exact closer_ne_at _
+        · exact allWs_atFree (allWs_of_wsOk hwc) x hx
+    | preamble v =>
+      obtain ⟨fuel, rfl⟩ : ∃ k, fuel = k + 1 := ⟨fuel - 1, by omega⟩
+      have hlen := renderCmd_length_pos (c := .preamble v) (ls.headD {}) (by intro t; simp)
+      obtain ⟨T, hT⟩ : ∃ T, renderCmd (.preamble v) (ls.headD {}) = '@' :: T := ⟨_, rfl⟩
+      rw [hT, List.cons_append] at h
+      rw [parseLoop_at fuel s pre _ h hpre]
+      obtain ⟨ln1, h1⟩ := parseCommand_preamble m keys v (ls.headD {})
+        { s with rest := T ++ render cs ls.tail, ln := s.ln + countNl (pre ++ ['@']) } (render cs ls.tail)
+        (by rw [hT]; rfl) hok hinv.mac
+      rw [h1]
+      simp only [processCmd_preamble]
+      have hwc : wsOk (ls.headD {}).afterClose = true := by
+        simp only [cmdOk, Bool.and_eq_true] at hok; exact hok.2
+      refine ih ls.tail fuel _ (ls.headD {}).afterClose m _ keys rfl (allWs_atFree (allWs_of_wsOk hwc)) hwf'
+        ⟨hinv.mac, ⟨hinv.proc.wanted, hinv.proc.cit, hinv.proc.roles⟩, hinv.entries, ?_, hinv.errs, hinv.keys⟩
+        (by simp only [List.length_append] at hfuel; omega)
+      simp only [writtenCmd, stepDenot, hinv.preamble]
+    | strdef n v =>
+      obtain ⟨fuel, rfl⟩ : ∃ k, fuel = k + 1 := ⟨fuel - 1, by omega⟩
+      have hlen := renderCmd_length_pos (c := .strdef n v) (ls.headD {}) (by intro t; simp)
+      obtain ⟨T, hT⟩ : ∃ T, renderCmd (.strdef n v) (ls.headD {}) = '@' :: T := ⟨_, rfl⟩
+      rw [hT, List.cons_append] at h
+      rw [parseLoop_at fuel s pre _ h hpre]
+      obtain ⟨ln1, h1⟩ := parseCommand_strdef m keys n v (ls.headD {})
+        { s with rest := T ++ render cs ls.tail, ln := s.ln + countNl (pre ++ ['@']) } (render cs ls.tail)
+        (by rw [hT]; rfl) hok hinv.mac
+      rw [h1]
+      simp only [processCmd_string]
+      have hwc : wsOk (ls.headD {}).afterClose = true := by
+        simp only [cmdOk, Bool.and_eq_true] at hok; exact hok.2
+      refine ih ls.tail fuel _ (ls.headD {}).afterClose _ D keys rfl (allWs_atFree (allWs_of_wsOk hwc)) hwf'
+        ⟨?_, ⟨hinv.proc.wanted, hinv.proc.cit, hinv.proc.roles⟩, hinv.entries, hinv.preamble, hinv.errs, hinv.keys⟩
+        (by simp only [List.length_append] at hfuel; omega)
+      exact macRef_set hinv.mac (lower_applyMask n _) (expand m v)
+    | entry ty key fs =>
+      obtain ⟨fuel, rfl⟩ : ∃ k, fuel = k + 1 := ⟨fuel - 1, by omega⟩
+      have hlen := renderCmd_length_pos (c := .entry ty key fs) (ls.headD {}) (by intro t; simp)
+      obtain ⟨T, hT⟩ : ∃ T, renderCmd (.entry ty key fs) (ls.headD {}) = '@' :: T := ⟨_, rfl⟩
+      rw [hT, List.cons_append] at h
+      rw [parseLoop_at fuel s pre _ h hpre]
+      obtain ⟨ln1, fn, cv, h1⟩ := parseCommand_entry m keys ty key fs (ls.headD {})
+        { s with rest := T ++ render cs ls.tail, ln := s.ln + countNl (pre ++ ['@']) } (render cs ls.tail)
+        (by rw [hT]; rfl) hok hinv.mac hinv.proc.wanted
+      rw [h1]
+      have hok' := hok
+      simp only [cmdOk, Bool.and_eq_true] at hok'
+      obtain ⟨⟨⟨⟨⟨⟨⟨⟨⟨⟨_, _⟩, _⟩, hnew⟩, hfs⟩, _⟩, _⟩, _⟩, _⟩, _⟩, hwc⟩ := hok'
+      have hany : D.entries.any (fun e => lower e.key = lower key) = false := by
+        rw [List.any_eq_false]
+        intro e he hek
+        have := hinv.keys e he
+        simp only [decide_eq_true_eq] at hek
+        rw [hek] at this
+        simp only [Bool.not_eq_true', List.contains_eq_mem, decide_eq_false_iff_not] at hnew
+        exact hnew this
+      have hproc := processCmd_entry m (applyMask ty (ls.headD {}).mask) key (writtenFields fs (ls.headD {}).fields)
+        { s with rest := (ls.headD {}).afterClose ++ render cs ls.tail, ln := ln1, curKey := some key,
+                 curFields := parsedFields m fs (ls.headD {}).fields, curFieldName := fn, curValue := cv }
+        ⟨hinv.proc.wanted, hinv.proc.cit, hinv.proc.roles⟩ (by rw [← hany, ← hinv.entries])
+        (procOk_of_fieldsOk m fs _ _ hfs)
+      have hproc' : processCmd (Cmd.entry (applyMask ty (ls.headD {}).mask) (some key) (parsedFields m fs (ls.headD {}).fields)) _ = _ := hproc
+      simp only [hproc']
+      refine ih ls.tail fuel _ (ls.headD {}).afterClose m _ (stepKeys keys (.entry ty key fs)) rfl
+        (allWs_atFree (allWs_of_wsOk hwc)) hwf'
+        ⟨hinv.mac, ⟨hinv.proc.wanted, hinv.proc.cit, hinv.proc.roles⟩, ?_, ?_, hinv.errs, ?_⟩
+        (by simp only [List.length_append] at hfuel; omega)
+      · simp only [writtenCmd, stepDenot, hany, Bool.false_eq_true, if_false, hinv.entries]
+      · simp only [writtenCmd, stepDenot, hany, Bool.false_eq_true, if_false, hinv.preamble]
+      · simp only [writtenCmd, stepDenot, hany, Bool.false_eq_true, if_false, stepKeys]
+        intro e he
+        rcases List.mem_append.1 he with he | he
+        · exact List.mem_cons_of_mem _ (hinv.keys e he)
+        · simp only [List.mem_singleton] at he
+          rw [he, denoteEntry_key]; exact List.mem_cons_self
+
+
+theorem macRef_init : MacRef (CIDict.ofPairs Gen.monthMacros) initMacros := by
+  intro k
+  have h := CIDict.ofPairs_spec Gen.monthMacros
+  rw [CIDict.getItem_abs h.1, h.2, BibSpec.initMacros]
+  have : dofPairs Gen.monthMacros = Gen.monthMacros := by decide
+  rw [this]
+
+/-- Stage 4: reading the rendering of a well-formed document gives the denotation of the document
+as written, reports nothing and raises nothing (in either error mode). -/
+theorem parseBib_faithful (d : ADoc) (L : Layout) (strict : Bool) (h : WF d L) :
+    ∃ s' m' keys', parseBib (render d L) strict none = (s', none) ∧
+      LoopInv s' m' (denote (written d L)) keys' := by
+  unfold parseBib
+  exact parseLoop_doc d L _ _ [] initMacros {} [] rfl (by simp) h
+    ⟨macRef_init, ⟨rfl, rfl, rfl⟩, rfl, rfl, rfl, by simp⟩ (by omega)
+
+
+/-! ## layout independence at the level of the denotation -/
+
+theorem stepMacros_writtenCmd (m : Macros) (c : ACmd) (l : CmdLayout) :
+    stepMacros m (writtenCmd c l) = stepMacros m c := by
+  cases c <;> rfl
+
+theorem ciEntry_key (e : Entry) : (ciEntry e).key = e.key := rfl
+
+theorem any_key_ci {es' es : List Entry} (h : es'.map ciEntry = es.map ciEntry) (key : Str) :
+    es'.any (fun e => lower e.key = lower key) = es.any (fun e => lower e.key = lower key) := by
+  have : ∀ l : List Entry, l.any (fun e => lower e.key = lower key) =
+      (l.map ciEntry).any (fun e => lower e.key = lower key) := by
+    intro l; rw [List.any_map]; rfl
+  rw [this es', this es, h]
+
+theorem ciEntry_denoteField (m : Macros) (e e' : Entry) (n n' : Str) (v : Value)
+    (he : ciEntry e' = ciEntry e) (hn : lower n' = lower n) :
+    ciEntry (denoteField m e' (n', v)) = ciEntry (denoteField m e (n, v)) := by
+  have hp : isPersonField n' = isPersonField n := by simp only [isPersonField, isPersonFieldOf, hn]
+  simp only [ciEntry, Entry.mk.injEq] at he
+  obtain ⟨h1, h2, h3, h4, h5⟩ := he
+  simp only [denoteField, hp]
+  split
+  · split
+    · simp only [ciEntry, h1, h2, h3, h4, h5]
+    · simp only [ciEntry, h1, h2, h3, h4, h5, List.map_append, List.map_cons, List.map_nil, hn]
+  · simp only [ciEntry, h1, h2, h3, h4, h5, List.map_append, List.map_cons, List.map_nil, hn]
+
+theorem ciEntry_foldl (m : Macros) (fs : List (Str × Value)) :
+    ∀ (ls : List FieldLayout) (e e' : Entry), ciEntry e' = ciEntry e →
+      ciEntry ((writtenFields fs ls).foldl (denoteField m) e') = ciEntry (fs.foldl (denoteField m) e) := by
+  induction fs with
+  | nil => intro ls e e' h; exact h
+  | cons f fs ih =>
+    intro ls e e' h
+    simp only [writtenFields, List.foldl_cons]
+    exact ih ls.tail _ _ (ciEntry_denoteField m e e' f.1 _ f.2 h (lower_applyMask _ _))
+
+theorem ciEntry_denoteEntry (m : Macros) (ty key : Str) (fs : List (Str × Value)) (l : CmdLayout) :
+    ciEntry (denoteEntry m (applyMask ty l.mask) key (writtenFields fs l.fields)) =
+      ciEntry (denoteEntry m ty key fs) := by
+  apply ciEntry_foldl
+  simp only [ciEntry, lower_applyMask, List.map_nil]
+
+/-- case masks change only the stored spelling of entry types, field names and role names -/
+theorem denoteFrom_written (d : ADoc) :
+    ∀ (L : Layout) (m : Macros) (D D' : Denot), D'.entries.map ciEntry = D.entries.map ciEntry →
+      D'.preamble = D.preamble →
+      (denoteFrom m D' (written d L)).entries.map ciEntry = (denoteFrom m D d).entries.map ciEntry ∧
+      (denoteFrom m D' (written d L)).preamble = (denoteFrom m D d).preamble := by
+  induction d with
+  | nil => intro L m D D' h1 h2; exact ⟨h1, h2⟩
+  | cons c cs ih =>
+    intro L m D D' h1 h2
+    simp only [written, denoteFrom, stepMacros_writtenCmd]
+    apply ih
+    · cases c with
+      | entry ty key fs =>
+        simp only [writtenCmd, stepDenot, any_key_ci h1 key]
+        split
+        · exact h1
+        · simp only [List.map_append, h1, List.map_cons, List.map_nil, ciEntry_denoteEntry]
+      | _ => exact h1
+    · cases c with
+      | entry ty key fs => simp only [writtenCmd, stepDenot]; split <;> split <;> exact h2
+      | preamble v => simp only [writtenCmd, stepDenot, h2]
+      | _ => exact h2
+
+theorem denote_written (d : ADoc) (L : Layout) :
+    (denote (written d L)).entries.map ciEntry = (denote d).entries.map ciEntry ∧
+    (denote (written d L)).preamble = (denote d).preamble :=
+  denoteFrom_written d L initMacros {} {} rfl rfl
+
+
+/-! ## the denotation in closed form (identifiers) -/
+
+/-- key, type as written, lower-cased type -/
+def headOf (e : Entry) : Str × Str × Str := (e.key, e.origType, e.type)
+
+theorem headOf_denoteField (m : Macros) (e : Entry) (f : Str × Value) : headOf (denoteField m e f) = headOf e := by
+  simp only [denoteField]
+  split
+  · split <;> rfl
+  · rfl
+
+theorem headOf_denoteEntry (m : Macros) (ty key : Str) (fs : List (Str × Value)) :
+    headOf (denoteEntry m ty key fs) = (key, ty, lower ty) := by
+  have : ∀ (fs : List (Str × Value)) (e : Entry), headOf (fs.foldl (denoteField m) e) = headOf e := by
+    intro fs
+    induction fs with
+    | nil => intro e; rfl
+    | cons f fs ih => intro e; rw [List.foldl_cons, ih, headOf_denoteField]
+  rw [denoteEntry, this]; rfl
+
+/-- the stored fields: the non-person fields in source order under the names given, with
+expanded and normalised values -/
+theorem denoteEntry_fields (m : Macros) (ty key : Str) (fs : List (Str × Value)) :
+    (denoteEntry m ty key fs).fields =
+      (fs.filter fun f => !isPersonField f.1).map fun f => (f.1, normalizeWs (expand m f.2)) := by
+  have : ∀ (fs : List (Str × Value)) (e : Entry), (fs.foldl (denoteField m) e).fields =
+      e.fields ++ (fs.filter fun f => !isPersonField f.1).map fun f => (f.1, normalizeWs (expand m f.2)) := by
+    intro fs
+    induction fs with
+    | nil => intro e; simp
+    | cons f fs ih =>
+      intro e
+      rw [List.foldl_cons, ih]
+      simp only [denoteField]
+      cases hp : isPersonField f.1
+      · simp [hp]
+      · simp only [if_true, List.filter_cons, hp, Bool.not_true, Bool.false_eq_true, if_false]
+        split <;> rfl
+  rw [denoteEntry, this]; rfl
+
+/-- the stored persons: one role per person field (name as given) with a non-empty person list -/
+theorem denoteEntry_persons (m : Macros) (ty key : Str) (fs : List (Str × Value)) :
+    (denoteEntry m ty key fs).persons =
+      ((fs.filter fun f => isPersonField f.1 && personsOf (normalizeWs (expand m f.2)) ≠ []).map
+        fun f => (f.1, personsOf (normalizeWs (expand m f.2)))) := by
+  have : ∀ (fs : List (Str × Value)) (e : Entry), (fs.foldl (denoteField m) e).persons =
+      e.persons ++ ((fs.filter fun f => isPersonField f.1 && personsOf (normalizeWs (expand m f.2)) ≠ []).map
+        fun f => (f.1, personsOf (normalizeWs (expand m f.2)))) := by
+    intro fs
+    induction fs with
+    | nil => intro e; simp
+    | cons f fs ih =>
+      intro e
+      rw [List.foldl_cons, ih]
+      simp only [denoteField]
+      cases hp : isPersonField f.1
+      · simp [hp]
+      · by_cases hq : personsOf (normalizeWs (expand m f.2)) = []
+        · simp [hp, hq]
+        · simp [hp, hq]
+  rw [denoteEntry, this]; rfl
+
+theorem denoteEntry_eq_entryOf (m : Macros) (ty key : Str) (fs : List (Str × Value)) :
+    denoteEntry m ty key fs = entryOf (m, ty, key, fs) := by
+  have h1 := headOf_denoteEntry m ty key fs
+  have h2 := denoteEntry_fields m ty key fs
+  have h3 := denoteEntry_persons m ty key fs
+  generalize denoteEntry m ty key fs = e at h1 h2 h3
+  cases e
+  simp only [headOf, Prod.mk.injEq] at h1
+  simp only at h2 h3
+  simp only [entryOf, Entry.mk.injEq]
+  exact ⟨h1.1, h1.2.2, h1.2.1, h2, h3⟩
+
+/-- under `WF` no entry is dropped: the entries of the denotation are those of the document as
+written, in order -/
+theorem denoteFrom_entries (d : ADoc) :
+    ∀ (L : Layout) (m : Macros) (D : Denot) (keys : List Str), wfFrom m keys d L = true →
+      (∀ e ∈ D.entries, lower e.key ∈ keys) →
+      (denoteFrom m D (written d L)).entries = D.entries ++ (entriesWith m (written d L)).map entryOf := by
+  induction d with
+  | nil => intro L m D keys _ _; simp [written, denoteFrom, entriesWith]
+  | cons c cs ih =>
+    intro L m D keys hwf hk
+    rw [wfFrom] at hwf
+    simp only [Bool.and_eq_true] at hwf
+    obtain ⟨hok, hwf'⟩ := hwf
+    simp only [written, denoteFrom, stepMacros_writtenCmd]
+    cases c with
+    | entry ty key fs =>
+      simp only [cmdOk, Bool.and_eq_true] at hok
+      have hnew := hok.1.1.1.1.1.1.1.2
+      have hany : D.entries.any (fun e => lower e.key = lower key) = false := by
+        rw [List.any_eq_false]
+        intro e he hek
+        have := hk e he
+        simp only [decide_eq_true_eq] at hek
+        rw [hek] at this
+        simp only [Bool.not_eq_true', List.contains_eq_mem, decide_eq_false_iff_not] at hnew
+        exact hnew this
+      have h := ih L.tail (stepMacros m (.entry ty key fs))
+        (stepDenot m D (writtenCmd (.entry ty key fs) (L.headD {}))) (stepKeys keys (.entry ty key fs)) hwf' (by
+          simp only [writtenCmd, stepDenot, hany, Bool.false_eq_true, if_false, stepKeys]
+          intro e he
+          rcases List.mem_append.1 he with he | he
+          · exact List.mem_cons_of_mem _ (hk e he)
+          · simp only [List.mem_singleton] at he
+            rw [he, denoteEntry_key]; exact List.mem_cons_self)
+      rw [h]
+      simp only [writtenCmd, stepDenot, hany, Bool.false_eq_true, if_false, entriesWith, stepMacros,
+        List.map_cons, List.append_assoc, List.cons_append, List.nil_append, denoteEntry_eq_entryOf]
+    | strdef n v => exact ih L.tail _ _ keys hwf' hk
+    | preamble v => exact ih L.tail _ _ keys hwf' hk
+    | comment t => exact ih L.tail _ _ keys hwf' hk
+    | junk t => exact ih L.tail _ _ keys hwf' hk
+
+theorem denote_entries (d : ADoc) (L : Layout) (h : WF d L) :
+    (denote (written d L)).entries = (entriesWith initMacros (written d L)).map entryOf := by
+  have := denoteFrom_entries d L initMacros {} [] h (by simp)
+  simpa [denote] using this
+
+
+theorem applyMask_nil (s : Str) : applyMask s [] = s := by cases s <;> rfl
+
+theorem writtenFields_plain (fs : List (Str × Value)) : ∀ ls : List FieldLayout,
+    plainFieldIds fs ls = true → writtenFields fs ls = fs := by
+  induction fs with
+  | nil => intro ls _; rfl
+  | cons f fs ih =>
+    intro ls h
+    simp only [plainFieldIds, Bool.and_eq_true, decide_eq_true_eq] at h
+    simp only [writtenFields, h.1, applyMask_nil, ih ls.tail h.2]
+
+/-- without case masks on entry types and field names the document is written as it is -/
+theorem written_plain (d : ADoc) : ∀ L : Layout, plainIds d L = true → written d L = d := by
+  induction d with
+  | nil => intro L _; rfl
+  | cons c cs ih =>
+    intro L h
+    cases c with
+    | entry ty key fs =>
+      simp only [plainIds, Bool.and_eq_true, decide_eq_true_eq] at h
+      simp only [written, writtenCmd, h.1.1, applyMask_nil, writtenFields_plain fs _ h.1.2, ih L.tail h.2]
+    | strdef n v => simp only [written, writtenCmd, ih L.tail h]
+    | preamble v => simp only [written, writtenCmd, ih L.tail h]
+    | comment t => simp only [written, writtenCmd, ih L.tail h]
+    | junk t => simp only [written, writtenCmd, ih L.tail h]
+
+/-- junk and `@comment` commands do not contribute to the denotation -/
+theorem denoteFrom_stripJunk (d : ADoc) : ∀ (m : Macros) (D : Denot),
+    denoteFrom m D (stripJunk d) = denoteFrom m D d := by
+  induction d with
+  | nil => intro m D; rfl
+  | cons c cs ih =>
+    intro m D
+    cases c with
+    | junk t => exact ih m D
+    | comment t => exact ih m D
+    | entry ty key fs => simp only [stripJunk, denoteFrom, ih]
+    | strdef n v => simp only [stripJunk, denoteFrom, ih]
+    | preamble v => simp only [stripJunk, denoteFrom, ih]
+
+theorem denote_stripJunk (d : ADoc) : denote (stripJunk d) = denote d := denoteFrom_stripJunk d _ _
+
+/-! ## identifiers are matched case-insensitively (facts about the model) -/
+
+/-- a macro defined under one spelling is found under every spelling equal up to case -/
+theorem getItem_setItem_ci (d : CIDict Str) {n n' : Str} (h : lower n = lower n') (v : Str) :
+    (d.setItem n v).getItem n' = some v := by
+  simp only [CIDict.getItem, CIDict.setItem, ← h, dget_dset_same]
+
+/-- a field whose name equals an earlier one up to case is reported and dropped -/
+theorem processFields_duplicate (key name : Str) (parts : List Str) (fs : List (Str × List Str)) (seen : List Str)
+    (e : Entry) (s : St) (hs : s.strict = false) (hd : seen.contains (lower name) = true) :
+    processFields key ((name, parts) :: fs) seen e s =
+      processFields key fs seen e { s with errs := s.errs ++ [⟨.duplicateField key name, none⟩] } := by
+  simp only [processFields, hd, if_true, handleError, hs, Bool.false_eq_true, if_false]
+
+/-- an entry whose key equals an earlier one up to case is reported and dropped -/
+theorem addEntry_repeated (s : St) (key : Str) (e e0 : Entry) (hw : s.db.wanted = none) (hs : s.strict = false)
+    (h0 : e0 ∈ s.db.entries) (hk : lower e0.key = lower key) :
+    addEntry s key e = .ok () { s with errs := s.errs ++ [⟨.repeatedEntry key, none⟩] } := by
+  have : hasEntry s.db key = true := by
+    simp only [hasEntry, List.any_eq_true, decide_eq_true_eq]; exact ⟨e0, h0, hk⟩
+  simp only [addEntry, wantEntry, hw, Bool.not_true, Bool.false_eq_true, if_false, this, if_true, handleError, hs]
+
+theorem months_getItem : ∀ p ∈ Gen.monthMacros, (CIDict.ofPairs Gen.monthMacros).getItem p.1 = some p.2 := by
+  decide
+
+theorem getItem_lower (d : CIDict Str) {k k' : Str} (h : lower k = lower k') : d.getItem k = d.getItem k' := by
+  simp only [CIDict.getItem, h]
 
 
 end Pybtex.BibRT
